@@ -1,4 +1,5 @@
 import TFV.Properties.SelfConf
+import TFV.Properties.Src.SelfCGAAdapt
 #print axioms TFV.SelfConf.C14_bumped_sum
 #print axioms TFV.SelfConf.C14_newProba_dist
 #print axioms TFV.SelfConf.C14_newProba_rule
@@ -9,3 +10,4 @@ import TFV.Properties.SelfConf
 #print axioms TFV.SelfConf.C14_adapt_uses_new
 #print axioms TFV.SelfConf.C14_adaptPDP_uses_new
 #print axioms TFV.SelfConf.C14_invariant
+#print axioms TFV.SrcTie.C14_src_selfcga_adapt
